@@ -729,7 +729,9 @@ class OutputAgent:
 
                         # VV: filepath is a relative path to the workflow instance
                         f.write("filepath=%s\n" % status['lastLocation'])
-                        f.write("description=%s\n" % status['description'])
+                        # VV: continuation lines must be indented, otherwise a multi-line description
+                        # makes the file unparsable
+                        f.write("description=%s\n" % ("%s" % status['description']).replace('\n', '\n\t'))
                         f.write("type=%s\n" % status['type'])
                         f.write("creationTime=%s\n" % status['creationTime'])
                         f.write("version=%d\n" % status['version'])
